@@ -1,21 +1,31 @@
 (* C01 - the tau* theory has exactly the program's here-and-there and stable models.
-   Statements only; proofs live in Proofs/TauStar*.v and Proofs/FreshNamesOk.v.
+   Statements only; proofs live in Proofs/TauStar*.v, Proofs/FreshNamesOk.v, Proofs/DivisionDeviation.v.
 
    Model: Model/TauStar.v (tau_star : program -> option theory, None = the usize overflow panic of
    choose_fresh_global_variables), Model/FreshNames.v.  Oracle: Sem/AspRef.v (vals, body_sat,
    head_sat, ref_rule_sat, stable), Sem/Sat.v (csat, hsat, hvalid, equilibrium).
-   Division and modulo: floor quotient / non-negative remainder, defined for positive divisors only
-   (the semantics tau_star.rs itself cites; see Sem/AspRef.v). *)
+
+   READING OF / AND \ (finding F24).  The oracle [vals] reads t1 / t2 and t1 \ t2 the way ANTHEM does:
+   a value exists only for a POSITIVE divisor and is the floor quotient / the non-negative remainder.
+   That clause is a transcription of the formula tau_star.rs builds (J != 0 & R >= 0 & R < J), whose
+   comment says "Not Abstract Gringo compliant in negative divisor edge cases".  So C01_val, C01_rule,
+   C01_ht, C01_stable below say: tau* is correct W.R.T. ANTHEM'S OWN READING of the two operators.
+   They do NOT say that tau*(P) captures the stable models clingo computes for P, and that is false:
+   the second half of this file (section "the published readings") states exactly where the reading
+   deviates from Abstract Gringo (floor, every divisor <> 0) and from clingo (truncation), proves that
+   outside that class the main theorems hold with the published semantics as well, and refutes them
+   inside it (out(7/(0-2)).: tau* has the empty equilibrium model, clingo answers out(-3)). *)
 From Coq Require Import List String ZArith NArith.
 Import ListNotations.
-From Anthem Require Import Syntax.Fol Syntax.Asp Sem.Domain Sem.Sat Sem.AspRef
-  Model.FreshNames Model.TauStar
+From Anthem Require Import Syntax.Fol Syntax.Asp Sem.Domain Sem.Sat Sem.AspRef Sem.AspRefGringo
+  Model.FreshNames Model.TauStar Model.Eval Model.EvalAspGringo Proofs.DivisionDeviation
   Proofs.FreshNamesOk Proofs.TauStarBase Proofs.TauStarVal Proofs.TauStarBody Proofs.TauStarRule
   Proofs.TauStarProgram Proofs.TauStarClosed Proofs.TauStarClassical Model.EvalAsp Proofs.EvalAspOk.
 Open Scope string_scope.
 
 (* (a) val_t(Z) holds exactly when the value of Z is one of the values of t, for EVERY term (all six
-   operators, unary minus, nested), every interpretation and every assignment.  z_ok z: an
+   operators, unary minus, nested), every interpretation and every assignment - [vals] being ANTHEM'S
+   reading of / and \ (positive divisors only, floor; see the header and C01_division_reading).  z_ok z: an
    integer-sorted z is not named Q<n> / R<n> (tau* only ever passes general-sorted Z<n>, V<n> or
    integer-sorted I<n>, J<n>). *)
 Theorem C01_val :
@@ -68,14 +78,18 @@ Theorem C01_globals_fresh :
 Proof. exact globals_fresh. Qed.
 Print Assumptions C01_globals_fresh.
 
-(* programs: all HT interpretations (H,T) - in particular all H subset-of T *)
+(* programs: all HT interpretations (H,T) - in particular all H subset-of T.
+   [ref_sat] = anthem's own reading of / and \ (F24); for the published readings see
+   C01_ht_abstract_gringo_outside_F24 and C01_not_abstract_gringo_negative_divisor below *)
 Theorem C01_ht :
   forall (FI : fint) (P : program) (G : theory) (H T : pint), tau_star P = Some G ->
   (theory_hsat FI H T G <-> ref_sat H T P).
 Proof. exact tau_star_ht. Qed.
 Print Assumptions C01_ht.
 
-(* (c) stable models with any set of extra facts = equilibrium models with the same facts *)
+(* (c) stable models with any set of extra facts = equilibrium models with the same facts
+   ([stable] = stable models under anthem's own reading of / and \, NOT clingo's answer sets when a
+   division by a negative number or of a negative number is evaluated: finding F24) *)
 Theorem C01_stable :
   forall (FI : fint) (P : program) (G : theory) (T : pint) (Facts : pint), tau_star P = Some G ->
   (equilibrium FI T G Facts <-> stable T P Facts).
@@ -227,3 +241,174 @@ Example C01_adversarial_names :
           (eq_formula (GVar "Z4") (GVar "Z1")))
        (FNot (FAtomic (AAtom "p" [GVar "Z2"; GVar "Z3"; GVar "Z4"])))).
 Proof. vm_compute. reflexivity. Qed.
+
+(* =============================================================================================
+   The published readings of / and \ (finding F24).  Definitions: Sem/AspRefGringo.v.
+     qr_anthem n1 n2 q m := n1 = n2*q + m /\ 0 <= m < n2           (Sem/AspRef.v, = tau_star.rs)
+     qr_ag     n1 n2 q m := n2 <> 0 /\ q = n1 / n2 /\ m = n1 mod n2  (Abstract Gringo: floor; Coq's Z.div)
+     qr_clingo n1 n2 q m := n2 <> 0 /\ q = n1 quot n2 /\ m = n1 rem n2  (clingo: truncation; Coq's Z.quot)
+   (the two published definitions are written from memory - no network; the Coq functions are tied
+   to "floor" and "truncation" by C01_floor / C01_truncation)
+   ============================================================================================= *)
+
+(* the oracle of the theorems above IS the instance qr_anthem (by conversion, nothing to trust) *)
+Theorem C01_oracle_is_anthems_reading :
+  vals_with qr_anthem = vals /\ ref_sat_with qr_anthem = ref_sat /\ stable_with qr_anthem = stable.
+Proof. exact (conj vals_with_anthem (conj ref_sat_with_anthem stable_with_anthem)). Qed.
+Print Assumptions C01_oracle_is_anthems_reading.
+
+(* anthem's reading, spelled out: positive divisors only, floor quotient, non-negative remainder *)
+Theorem C01_division_reading :
+  forall n1 n2 q m : Z, qr_anthem n1 n2 q m <-> (0 < n2 /\ q = n1 / n2 /\ m = n1 mod n2)%Z.
+Proof. exact qr_anthem_iff. Qed.
+Print Assumptions C01_division_reading.
+
+(* Z.div is the floor of the rational quotient for either sign of the divisor; Z.quot truncates *)
+Theorem C01_floor :
+  forall n1 n2 q : Z, n2 <> 0%Z ->
+  (q = n1 / n2 <-> ((0 < n2 /\ q * n2 <= n1 < (q + 1) * n2) \/ (n2 < 0 /\ (q + 1) * n2 < n1 <= q * n2)))%Z.
+Proof. exact ag_quotient_is_floor. Qed.
+Print Assumptions C01_floor.
+Theorem C01_truncation :
+  forall n1 n2 : Z, n2 <> 0%Z -> Z.quot n1 n2 = (Z.sgn n1 * Z.sgn n2 * (Z.abs n1 / Z.abs n2))%Z.
+Proof. exact clingo_quotient_is_truncation. Qed.
+Print Assumptions C01_truncation.
+
+(* all three readings agree on a non-negative dividend and a positive divisor *)
+Theorem C01_readings_agree_nonneg :
+  forall n1 n2 q m : Z, (0 <= n1)%Z -> (0 < n2)%Z ->
+  (qr_anthem n1 n2 q m <-> qr_ag n1 n2 q m) /\ (qr_anthem n1 n2 q m <-> qr_clingo n1 n2 q m).
+Proof. exact readings_agree_nonneg. Qed.
+Print Assumptions C01_readings_agree_nonneg.
+
+(* anthem = Abstract Gringo for every positive divisor (any dividend) *)
+Theorem C01_anthem_is_abstract_gringo_pos_divisor :
+  forall n1 n2 q m : Z, (0 < n2)%Z -> (qr_anthem n1 n2 q m <-> qr_ag n1 n2 q m).
+Proof. exact anthem_is_ag_pos_divisor. Qed.
+Print Assumptions C01_anthem_is_abstract_gringo_pos_divisor.
+
+(* THE EXACT DEVIATION SETS on (dividend, divisor):
+   vs Abstract Gringo - exactly the negative divisors (AG has a value there, anthem none);
+   vs clingo - the negative divisors, and the negative dividends a positive divisor does not divide *)
+Theorem C01_deviation_set_abstract_gringo :
+  forall n1 n2 : Z, ~ (forall q m, qr_anthem n1 n2 q m <-> qr_ag n1 n2 q m) <-> (n2 < 0)%Z.
+Proof. exact anthem_ag_deviation_set. Qed.
+Print Assumptions C01_deviation_set_abstract_gringo.
+Theorem C01_negative_divisor_no_value :
+  forall n1 n2 : Z, (n2 < 0)%Z ->
+  qr_ag n1 n2 (n1 / n2)%Z (n1 mod n2)%Z /\ forall q m, ~ qr_anthem n1 n2 q m.
+Proof. exact neg_divisor_ag_value_anthem_none. Qed.
+Print Assumptions C01_negative_divisor_no_value.
+Theorem C01_deviation_set_clingo :
+  forall n1 n2 : Z, ~ (forall q m, qr_anthem n1 n2 q m <-> qr_clingo n1 n2 q m) <->
+                    (n2 < 0 \/ (0 < n2 /\ n1 < 0 /\ n1 mod n2 <> 0))%Z.
+Proof. exact anthem_clingo_deviation_set. Qed.
+Print Assumptions C01_deviation_set_clingo.
+
+(* terms: a term whose evaluation never applies / or \ to a pair of the class has the same values in
+   both readings.  neg_divisor n1 n2 := n2 < 0;  neg_operand n1 n2 := n2 < 0 \/ n1 < 0;
+   [reaches qr bad sg t]: some subterm l/r or l\r of t has values n1 of l, n2 of r with bad n1 n2 *)
+Theorem C01_vals_abstract_gringo_outside_F24 :
+  forall (sg : assignment) (t : term), ~ reaches qr_anthem neg_divisor sg t ->
+  forall v, vals sg t v <-> vals_ag sg t v.
+Proof. exact (vals_agree_outside qr_anthem qr_ag neg_divisor anthem_is_ag_outside). Qed.
+Print Assumptions C01_vals_abstract_gringo_outside_F24.
+Theorem C01_vals_clingo_outside_F24 :
+  forall (sg : assignment) (t : term), ~ reaches qr_anthem neg_operand sg t ->
+  forall v, vals sg t v <-> vals_clingo sg t v.
+Proof. exact (vals_agree_outside qr_anthem qr_clingo neg_operand anthem_is_clingo_outside). Qed.
+Print Assumptions C01_vals_clingo_outside_F24.
+(* a syntactic sufficient test: every divisor is a positive numeral *)
+Theorem C01_positive_numeral_divisors_outside_F24 :
+  forall (qr : divreading) (sg : assignment) (t : term),
+  divisors_positive_numerals t = true -> ~ reaches qr neg_divisor sg t.
+Proof. exact divisors_positive_numerals_outside. Qed.
+Print Assumptions C01_positive_numeral_divisors_outside_F24.
+
+(* OUTSIDE the class C01_ht and C01_stable hold with the published semantics.
+   [program_reaches qr bad P]: some ground instance of some rule of P reaches a bad pair; the class may
+   be tested in either reading *)
+Theorem C01_ht_abstract_gringo_outside_F24 :
+  forall (FI : fint) (P : program) (G : theory) (H T : pint), tau_star P = Some G ->
+  ~ program_reaches qr_anthem neg_divisor P \/ ~ program_reaches qr_ag neg_divisor P ->
+  (theory_hsat FI H T G <-> ref_sat_with qr_ag H T P).
+Proof. exact tau_star_ht_ag_outside. Qed.
+Print Assumptions C01_ht_abstract_gringo_outside_F24.
+Theorem C01_stable_abstract_gringo_outside_F24 :
+  forall (FI : fint) (P : program) (G : theory) (T : pint) (Facts : pint), tau_star P = Some G ->
+  ~ program_reaches qr_anthem neg_divisor P \/ ~ program_reaches qr_ag neg_divisor P ->
+  (equilibrium FI T G Facts <-> stable_with qr_ag T P Facts).
+Proof. exact tau_star_stable_ag_outside. Qed.
+Print Assumptions C01_stable_abstract_gringo_outside_F24.
+Theorem C01_ht_clingo_outside_F24 :
+  forall (FI : fint) (P : program) (G : theory) (H T : pint), tau_star P = Some G ->
+  ~ program_reaches qr_anthem neg_operand P \/ ~ program_reaches qr_clingo neg_operand P ->
+  (theory_hsat FI H T G <-> ref_sat_with qr_clingo H T P).
+Proof. exact tau_star_ht_clingo_outside. Qed.
+Print Assumptions C01_ht_clingo_outside_F24.
+Theorem C01_stable_clingo_outside_F24 :
+  forall (FI : fint) (P : program) (G : theory) (T : pint) (Facts : pint), tau_star P = Some G ->
+  ~ program_reaches qr_anthem neg_operand P \/ ~ program_reaches qr_clingo neg_operand P ->
+  (equilibrium FI T G Facts <-> stable_with qr_clingo T P Facts).
+Proof. exact tau_star_stable_clingo_outside. Qed.
+Print Assumptions C01_stable_clingo_outside_F24.
+
+(* INSIDE the class the statement is FALSE for the published semantics.
+   P_F24 = out(7/(0-2)).  (anthem has no negative numeral literals)     P_F24c = out((0-7)/2).
+   no_atoms = the empty interpretation; only_atom p c = {p(c)}. *)
+Theorem C01_not_abstract_gringo_negative_divisor :
+  forall FI : fint, exists G, tau_star P_F24 = Some G /\
+    equilibrium FI no_atoms G no_atoms /\ ~ stable_with qr_ag no_atoms P_F24 no_atoms /\
+    stable_with qr_ag (only_atom "out" (-4)) P_F24 no_atoms /\ ~ equilibrium FI (only_atom "out" (-4)) G no_atoms.
+Proof. exact tau_star_not_abstract_gringo_negative_divisor. Qed.
+Print Assumptions C01_not_abstract_gringo_negative_divisor.
+Theorem C01_not_clingo_negative_divisor :
+  forall FI : fint, exists G, tau_star P_F24 = Some G /\
+    equilibrium FI no_atoms G no_atoms /\ ~ stable_with qr_clingo no_atoms P_F24 no_atoms /\
+    stable_with qr_clingo (only_atom "out" (-3)) P_F24 no_atoms /\ ~ equilibrium FI (only_atom "out" (-3)) G no_atoms.
+Proof. exact tau_star_not_clingo_negative_divisor. Qed.
+Print Assumptions C01_not_clingo_negative_divisor.
+Theorem C01_not_clingo_negative_dividend :
+  forall FI : fint, exists G, tau_star P_F24c = Some G /\
+    equilibrium FI (only_atom "out" (-4)) G no_atoms /\ ~ stable_with qr_clingo (only_atom "out" (-4)) P_F24c no_atoms /\
+    stable_with qr_clingo (only_atom "out" (-3)) P_F24c no_atoms /\ ~ equilibrium FI (only_atom "out" (-3)) G no_atoms.
+Proof. exact tau_star_not_clingo_negative_dividend. Qed.
+Print Assumptions C01_not_clingo_negative_dividend.
+(* the two witnesses lie in their classes (in every reading), so the "outside" theorems do not cover them *)
+Theorem C01_F24_witnesses_in_class :
+  forall qr : divreading, program_reaches qr neg_divisor P_F24 /\ program_reaches qr neg_operand P_F24c.
+Proof. exact (fun qr => conj (P_F24_in_class qr) (P_F24c_in_class qr)). Qed.
+Print Assumptions C01_F24_witnesses_in_class.
+
+(* the executable oracles of the semantic ops sem_tau_star_ag / sem_tau_star_clingo compute the value
+   sets of the published readings, and return anthem's verdict on every rule their class test rejects *)
+Theorem C01_published_oracle_vals :
+  forall (d : divmode) (sg : fassign) (t : term) (v : gval),
+  In v (ref_vals_m d all_values sg t) <-> vals_with (qr_of d) (alookup sg) t v.
+Proof. exact ref_vals_m_spec. Qed.
+Print Assumptions C01_published_oracle_vals.
+Theorem C01_published_oracle_outside_F24 :
+  forall (W : window) (H T : fpint) (r : rule),
+  (rule_in_class DGringo neg_divisor_b W r = false -> ref_rule_eval_m DGringo W H T r = ref_rule_eval_m DAnthem W H T r) /\
+  (rule_in_class DClingo neg_operand_b W r = false -> ref_rule_eval_m DClingo W H T r = ref_rule_eval_m DAnthem W H T r).
+Proof. exact (fun W H T r => conj (ref_rule_eval_ag_outside W H T r) (ref_rule_eval_clingo_outside W H T r)). Qed.
+Print Assumptions C01_published_oracle_outside_F24.
+
+(* ---------- non-vacuity of the "outside" theorems ---------- *)
+(* P_ex (above; it divides by the VARIABLES J and Q) is INSIDE the class: J := -1 *)
+Example C01_P_ex_inside_F24 : program_reaches qr_anthem neg_divisor P_ex.
+Proof.
+  eexists; exists (fun _ => VNum (-1)%Z); split; [left; reflexivity|].
+  left. left. right. right. split; [left; reflexivity|]. exists (-1)%Z, (-1)%Z. repeat split.
+Qed.
+(* a program with a division that is outside: p(X/2) :- q(X). *)
+Definition P_out : program :=
+  [mkrule (HBasic (mkatom "p" [TBin ADiv (v "X") (n 2)])) [BLit (mklit SNone (mkatom "q" [v "X"]))]].
+Example C01_P_out_outside_F24 : ~ program_reaches qr_anthem neg_divisor P_out.
+Proof.
+  intros (r & sg & [<-|[]] & [Hh|Hb]).
+  - inversion Hh as [? ? Ht|? ? Ht]; subst; [|inversion Ht].
+    revert Ht. apply C01_positive_numeral_divisors_outside_F24. reflexivity.
+  - inversion Hb as [? ? Ht|? ? Ht]; subst; [|inversion Ht].
+    inversion Ht as [? ? Hx|? ? Hx]; subst; [exact Hx|inversion Hx].
+Qed.
